@@ -164,6 +164,9 @@ Definition lib_bip38_decrypt (s : bytes) (pw : P) : res dec_info :=
   match b58d s with
   | None => Err EEnc
   | Some d =>
+      (* len(d) != 43 or d[-4:] != double_sha256(d[:-4])[:4]  (repository fix ffad970) *)
+      if negb (Nat.eqb (length d) 43) || negb (bytes_eqb (last_n 4 d) (firstn 4 (H (firstn (length d - 4) d))))
+      then Err EEnc else
       let identifier := sl 0 2 d in
       if bytes_eqb identifier pfx_ec then lib_decrypt_ec d pw
       else if bytes_eqb identifier pfx_noec then lib_decrypt_noec d pw
